@@ -204,7 +204,8 @@ func c15xmlInput(c *core.Ctx, b []byte, mutated bool) {
 		switch {
 		case leading != "" && (accept || true) && err == mxj.NoRoot:
 			// documented no-root result: exactly one entry under the matching reserved key
-			want := map[string]string{"comment": "#comment", "directive": "#directive", "procinst": "#procinst"}[leading]
+			snap := mxj.VerifOptionSnapshot() // the reserved keys follow the global key prefix
+			want := map[string]string{"comment": snap["commentK"].(string), "directive": snap["directiveK"].(string), "procinst": snap["procinstK"].(string)}[leading]
 			if _, ok := ms[want]; !ok || len(ms) != 1 {
 				c.Violate("c15-seq-noroot-shape", api+" NoRoot result does not have the documented one-entry shape", det(api, ms, err))
 			}
@@ -479,6 +480,17 @@ func c15special(c *core.Ctx) {
 func (c15) Case(c *core.Ctx) {
 	r := c.R
 	defer ResetDefaults()
+	if k := c.Index % 8; (k == 0 || k == 1 || k == 4) && r.Intn(2) == 0 {
+		// decoders and encoders are total under every option combination, not only the defaults
+		cfg := GenCfg(r, true, true)
+		cfg.Apply()
+		mxj.XMLEscapeChars(r.Intn(2) == 0 && !cfg.DecEsc)
+		mxj.XmlCheckIsValid(r.Intn(4) == 0)
+		if r.Intn(4) == 0 {
+			mxj.XmlGoEmptyElemSyntax()
+		}
+		c.Count("non-default-options")
+	}
 	switch c.Index % 8 {
 	case 0, 1:
 		g := c15xmlgen
